@@ -36,8 +36,42 @@ var exprWrappers = []string{"obj-field", "list-elem", "index", "fn-arg", "closur
 // handler which encloses the statement).
 var valueExits = []string{"return-throw", "throw-nested"}
 
-var allWrappers = append(append([]string{}, wrappers...), exprWrappers...)
+// iterWrappers: `for` loops over something else than a range literal: a string literal, a string
+// held in a variable (a local of main, handed down as a parameter to every function the nesting
+// declares), a list literal, a list variable and a range variable. Strings have three items, so
+// an exit at the bottom leaves the loop in its first round. Every variable is iterated once more
+// (in full, counting the rounds) behind the construct, and a literal is iterated again when an
+// enclosing loop or function runs a second time: a loop which is left early must not leave
+// anything behind in the value it iterated. (What the loop variable holds is not looked at: no
+// property says what iterating a string yields.) In the "-last" forms the content only runs in the
+// last round of the loop (a round counter is compared), so the loop is left in its last round and
+// a second execution of the same loop has to start from the beginning again.
+var iterWrappers = []string{"for-str", "for-str-last", "for-strvar", "for-list-last", "for-listvar", "for-rangevar"}
+
+// valueWrappers: the construct yields the value of the LEFT operand of an operator whose right
+// operand has a visible effect (`side(10)` prints), so that code behind the construct which
+// belongs to the same expression is observed: a block (`{ .. 2 } + side(10)`), a try whose
+// try-block holds the construct and whose catch-block yields a value, a try whose try-block always
+// throws and whose catch-block holds the construct, the same two bound with a `let` without
+// annotation first, and as the target of a compound assignment.
+var valueWrappers = []string{"operand-left", "try-operand", "catch-operand", "try-let-operand", "catch-let-operand", "try-compound", "catch-compound"}
+
+// callWrappers: like "call", but the function has a long name (21, 39, 57 characters, by level):
+// what is on the call stack when the exit happens must not matter, in particular not for how a
+// fatal error or an uncaught throw ends the run.
+var callWrappers = []string{"call-long"}
+
+var allWrappers = append(append(append(append([]string{}, wrappers...), exprWrappers...), iterWrappers...), append(append([]string{}, valueWrappers...), callWrappers...)...)
 var allExits = append(append([]string{}, exits...), valueExits...)
+
+func isCall(w string) bool { return w == "call" || w == "call-long" }
+func isFor(w string) bool  { return w == "for" || isIn(iterWrappers, w) }
+func isLoop(w string) bool { return w == "loop" || w == "while" || isFor(w) }
+
+// isTry: the wrapper catches what is thrown inside it.
+func isTry(w string) bool {
+	return w == "try" || w == "try-operand" || w == "try-let-operand" || w == "try-compound"
+}
 
 func isIn(xs []string, x string) bool {
 	for _, y := range xs {
@@ -82,8 +116,8 @@ func (c11) Info(tier string) fw.Info {
 		Level: "exploration",
 		Rule: fmt.Sprintf("exhaustive enumeration of wrapper stacks of depth 1..%d over %v with each exit kind %v innermost, filtered to the statically legal ones (break/continue need a loop in the same function); "+
 			"around it a fixed scaffold: a local set before, trace tags before/inside/after every level, a second try and a second loop after the construct, then a final uncaught throw variant; "+
-			"extended family: the same scaffold over the wrappers %v in addition and the exits %v in addition (every combination which is not in the base family): exhaustive for depth 1..2, a VERIF_SEED-selected sample of %d stacks of depth 3 and %d of depth 4; "+
-			"each program runs on the VM (trace, outcome, residue, handlers) and on the interpreter and is compared with the reference evaluator. non-trivial = the exit statement was reached (its 'pre-exit' tag is in the model trace); distinct = distinct (stack, exit, variant)", depth(tier), wrappers, exits, exprWrappers, valueExits, d3, d4),
+			"extended family: the same scaffold over the wrappers %v in addition (for loops over string/list literals and over string/list/range variables which are iterated again in full behind the construct; the construct as LEFT operand of an operator whose right operand prints: block, try with a value-yielding catch, catch of a try which always throws, directly / through a let / as compound-assignment target; calls of functions with long names) and the exits %v in addition (every combination which is not in the base family): exhaustive for depth 1..2, a VERIF_SEED-selected sample of %d stacks of depth 3 and %d of depth 4; "+
+			"each program runs on the VM (trace, outcome, residue, handlers) and on the interpreter and is compared with the reference evaluator. non-trivial = the exit statement was reached (its 'pre-exit' tag is in the model trace); distinct = distinct (stack, exit, variant)", depth(tier), wrappers, exits, allWrappers[len(wrappers):], valueExits, d3, d4),
 		Assumptions: []string{"depth bound as stated; data-dependent exits are covered by the random programs of C01",
 			"exhaustive holds for the base family (all depths stated) and for depth 1..2 of the extended family; deeper stacks of the extended family are a seeded sample",
 			"expression positions of type never which the unchanged tree does not take (index, object-literal field) are only exercised behind a condition"},
@@ -102,6 +136,11 @@ type Payload struct {
 	// (`{ if keep > 0 { .. } v }`), so that the block is of type int although its content always
 	// leaves; otherwise the content stands directly in the block, which is then of type never.
 	Guarded bool `json:"guarded,omitempty"`
+	// Shadow: the body of every block-like wrapper starts with its own `let keep = 1000+k;`, which
+	// hides the keep of the function for the rest of that block only. Every line printed after an
+	// exit has left the block (handlers, out-tags, the scaffold) must show the function's keep
+	// again: a scope that is not removed on the way out (or one removed too many) shows here.
+	Shadow bool `json:"shadow,omitempty"`
 }
 
 // alwaysGuarded: positions in which the unchanged tree cannot take an expression of type never:
@@ -115,6 +154,77 @@ type builder struct {
 	fns   []*prog.Func
 	n     int
 	trace int
+	// model: build the twin which the reference evaluator runs. The evaluator cannot iterate a
+	// string; in the twin every iterated string is the list of its items (the programs do not
+	// look at the items, only at how often the body runs).
+	model bool
+	// iter: the iterable variables the nesting uses (declared in main, parameters elsewhere)
+	iter []prog.Var
+}
+
+const strItems = "abc"
+
+func (b *builder) strTy() *prog.Type {
+	if b.model {
+		return prog.ListOf(prog.Str)
+	}
+	return prog.Str
+}
+
+func (b *builder) strVal() prog.Expr {
+	if !b.model {
+		return prog.StrLit{V: strItems}
+	}
+	l := prog.ListLit{Ty: prog.ListOf(prog.Str)}
+	for _, r := range strItems {
+		l.Elems = append(l.Elems, prog.StrLit{V: string(r)})
+	}
+	return l
+}
+
+func intList3() prog.Expr {
+	return prog.ListLit{Elems: []prog.Expr{prog.IntLit{V: 7}, prog.IntLit{V: 8}, prog.IntLit{V: 9}}, Ty: prog.ListOf(prog.Int)}
+}
+
+// iterVar: the variable a "for-…var" wrapper iterates.
+func (b *builder) iterVar(w string) prog.Var {
+	switch w {
+	case "for-strvar":
+		return prog.Var{Name: "sv", Ty: b.strTy()}
+	case "for-listvar":
+		return prog.Var{Name: "lv", Ty: prog.ListOf(prog.Int)}
+	case "for-rangevar":
+		return prog.Var{Name: "rv", Ty: prog.Range}
+	}
+	panic("c11: no variable for " + w)
+}
+
+func (b *builder) iterInit(v prog.Var) prog.Expr {
+	switch v.Name {
+	case "sv":
+		return b.strVal()
+	case "lv":
+		return intList3()
+	}
+	return prog.RangeLit{A: prog.IntLit{V: 0}, B: prog.IntLit{V: 3}}
+}
+
+func (b *builder) iterParams() (ps []prog.Param, args []prog.Expr) {
+	for _, v := range b.iter {
+		ps = append(ps, prog.Param{Name: v.Name, T: v.Ty})
+		args = append(args, v)
+	}
+	return
+}
+
+// side declares (once) fn side(n: int) -> int { println("rhs-evaluated", n); n }.
+func (b *builder) side() prog.Expr {
+	if !b.hasFn("side") {
+		vn := prog.Var{Name: "n", Ty: prog.Int}
+		b.fns = append(b.fns, &prog.Func{Name: "side", Ret: prog.Int, Params: []prog.Param{{Name: "n", T: prog.Int}},
+			Body: &prog.Block{Stmts: []prog.Stmt{say(prog.StrLit{V: "rhs-evaluated"}, vn)}, Tail: vn}})
+	}
+	return prog.Call{Fn: "side", Args: []prog.Expr{prog.IntLit{V: 10}}, Ret: prog.Int}
 }
 
 func (b *builder) tag(s string) prog.Stmt {
@@ -231,6 +341,29 @@ func (b *builder) exprWrapper(w string, k int, out string, blk *prog.Block) []pr
 		return []prog.Stmt{prog.Let{Name: v, V: prog.ListLit{Elems: []prog.Expr{prog.IntLit{V: 10}, prog.IntLit{V: 20}}, Ty: intList}},
 			prog.ExprStmt{X: prog.Assign{Op: op, Target: prog.Index{X: lv, I: prog.IntLit{V: 1}}, V: blk}},
 			say(outS, lv, keepVar)}
+	case "operand-left":
+		blk.Tail = prog.IntLit{V: 2}
+		return []prog.Stmt{prog.Let{Name: v, V: prog.Infix{Op: "+", L: blk, R: b.side()}}, say(outS, prog.Var{Name: v, Ty: prog.Int}, keepVar)}
+	case "try-operand", "catch-operand", "try-let-operand", "catch-let-operand", "try-compound", "catch-compound":
+		blk.Tail = prog.IntLit{V: 2}
+		e := fmt.Sprintf("e%d", k)
+		var try prog.Try
+		if strings.HasPrefix(w, "try-") {
+			h := &prog.Block{Stmts: []prog.Stmt{say(prog.StrLit{V: "caught-" + out}, prog.Member{X: prog.Var{Name: e, Ty: prog.ObjOf(prog.Field{Name: "message", T: prog.Str})}, Name: "message"}, keepVar)}, Tail: prog.IntLit{V: 7}}
+			try = prog.Try{Body: blk, Name: e, Handler: h}
+		} else {
+			tb := &prog.Block{Stmts: []prog.Stmt{prog.ExprStmt{X: prog.Builtin{Name: "throw", Args: []prog.Expr{prog.StrLit{V: "to-handler"}}}}}, Tail: prog.IntLit{V: 1}}
+			try = prog.Try{Body: tb, Name: e, Handler: blk}
+		}
+		tv := prog.Var{Name: v, Ty: prog.Int}
+		switch {
+		case strings.HasSuffix(w, "-let-operand"):
+			u := prog.Var{Name: fmt.Sprintf("u%d", k), Ty: prog.Int}
+			return []prog.Stmt{prog.Let{Name: u.Name, V: try}, prog.Let{Name: v, V: prog.Infix{Op: "+", L: u, R: b.side()}}, say(outS, u, tv, keepVar)}
+		case strings.HasSuffix(w, "-compound"):
+			return []prog.Stmt{prog.Let{Name: v, V: try}, prog.ExprStmt{X: prog.Assign{Op: "+=", Target: tv, V: b.side()}}, say(outS, tv, keepVar)}
+		}
+		return []prog.Stmt{prog.Let{Name: v, V: prog.Infix{Op: "+", L: prog.Grouped{X: try}, R: b.side()}}, say(outS, tv, keepVar)}
 	}
 	panic("c11: unknown wrapper " + w)
 }
@@ -245,10 +378,10 @@ func tagKeep(s string) prog.Stmt {
 func legal(stack []string, exit string) bool {
 	if exit == "break" || exit == "continue" {
 		for i := len(stack) - 1; i >= 0; i-- {
-			switch stack[i] {
-			case "call":
+			switch {
+			case isCall(stack[i]):
 				return false
-			case "loop", "while", "for":
+			case isLoop(stack[i]):
 				return true
 			}
 		}
@@ -276,21 +409,21 @@ func Tags(stack []string, exit string) []string {
 	switch exit {
 	case "break", "continue":
 		for i := len(stack) - 1; i >= 0; i-- {
-			if stack[i] == "loop" || stack[i] == "while" || stack[i] == "for" {
+			if isLoop(stack[i]) {
 				break
 			}
 			crossed = append(crossed, stack[i])
 		}
 	case "return", "return-value":
 		for i := len(stack) - 1; i >= 0; i-- {
-			if stack[i] == "call" {
+			if isCall(stack[i]) {
 				break
 			}
 			crossed = append(crossed, stack[i])
 		}
 	case "throw", "return-throw", "throw-nested":
 		for i := len(stack) - 1; i >= 0; i-- {
-			if stack[i] == "try" {
+			if isTry(stack[i]) {
 				break
 			}
 			crossed = append(crossed, stack[i])
@@ -299,6 +432,14 @@ func Tags(stack []string, exit string) []string {
 		crossed = append(crossed, stack...)
 	}
 	for _, w := range crossed {
+		switch {
+		case isTry(w):
+			w = "try"
+		case isCall(w):
+			w = "call"
+		case isFor(w):
+			w = "for"
+		}
 		switch w {
 		case "try":
 			add("exit-out-of-try")
@@ -322,8 +463,23 @@ func Tags(stack []string, exit string) []string {
 }
 
 // Build constructs the program of a payload.
-func Build(p Payload) *prog.Program {
-	b := &builder{}
+func Build(p Payload) *prog.Program { return build(p, false) }
+
+// BuildModel constructs the twin of the program which the reference evaluator runs (the same
+// program unless a string is iterated, see builder.model).
+func BuildModel(p Payload) *prog.Program { return build(p, true) }
+
+func needsTwin(p Payload) bool {
+	return isIn(p.Stack, "for-str") || isIn(p.Stack, "for-str-last") || isIn(p.Stack, "for-strvar")
+}
+
+func build(p Payload, model bool) *prog.Program {
+	b := &builder{model: model}
+	for _, w := range []string{"for-strvar", "for-listvar", "for-rangevar"} {
+		if isIn(p.Stack, w) {
+			b.iter = append(b.iter, b.iterVar(w))
+		}
+	}
 	// innermost statements
 	var inner []prog.Stmt
 	inner = append(inner, tagKeep("pre-exit"))
@@ -346,7 +502,7 @@ func Build(p Payload) *prog.Program {
 	// the function that directly contains the exit: index of the innermost "call" wrapper
 	innermostCall := -1
 	for i := len(p.Stack) - 1; i >= 0; i-- {
-		if p.Stack[i] == "call" {
+		if isCall(p.Stack[i]) {
 			innermostCall = i
 			break
 		}
@@ -377,6 +533,9 @@ func Build(p Payload) *prog.Program {
 		in := fmt.Sprintf("in-%s-%d", w, k)
 		out := fmt.Sprintf("out-%s-%d", w, k)
 		body := append([]prog.Stmt{tagKeep(in)}, cur...)
+		if p.Shadow && !isCall(w) {
+			body = append([]prog.Stmt{prog.Let{Name: "keep", V: prog.IntLit{V: int64(1000 + k)}}}, body...)
+		}
 		body = append(body, b.tag("tail-"+in))
 		blk := &prog.Block{Stmts: body}
 		switch w {
@@ -393,6 +552,22 @@ func Build(p Payload) *prog.Program {
 			cur = []prog.Stmt{prog.Let{Name: c.Name, V: prog.IntLit{V: 0}}, prog.While{Cond: prog.Infix{Op: "<", L: c, R: prog.IntLit{V: 2}}, Body: lb}, tagKeep(out)}
 		case "for":
 			cur = []prog.Stmt{prog.For{Name: fmt.Sprintf("i%d", k), Iter: prog.RangeLit{A: prog.IntLit{V: 0}, B: prog.IntLit{V: 2}}, Body: blk}, tagKeep(out)}
+		case "for-str":
+			cur = []prog.Stmt{prog.For{Name: fmt.Sprintf("i%d", k), Iter: b.strVal(), Body: blk}, tagKeep(out)}
+		case "for-str-last", "for-list-last":
+			r := prog.Var{Name: fmt.Sprintf("rd%d", k), Ty: prog.Int}
+			it := intList3()
+			if w == "for-str-last" {
+				it = b.strVal()
+			}
+			blk.Stmts = []prog.Stmt{
+				prog.ExprStmt{X: prog.Assign{Op: "+=", Target: r, V: prog.IntLit{V: 1}}},
+				say(prog.StrLit{V: in}, r, keepVar),
+				prog.ExprStmt{X: prog.If{Cond: prog.Infix{Op: "==", L: r, R: prog.IntLit{V: int64(len(strItems))}}, Then: &prog.Block{Stmts: cur}}},
+				b.tag("tail-" + in)}
+			cur = []prog.Stmt{prog.Let{Name: r.Name, V: prog.IntLit{V: 0}}, prog.For{Name: fmt.Sprintf("i%d", k), Iter: it, Body: blk}, tagKeep(out)}
+		case "for-strvar", "for-listvar", "for-rangevar":
+			cur = []prog.Stmt{prog.For{Name: fmt.Sprintf("i%d", k), Iter: b.iterVar(w), Body: blk}, tagKeep(out)}
 		case "block":
 			cur = []prog.Stmt{prog.ExprStmt{X: blk}, tagKeep(out)}
 		case "if-then":
@@ -411,15 +586,19 @@ func Build(p Payload) *prog.Program {
 			e := fmt.Sprintf("e%d", k)
 			tb := &prog.Block{Stmts: []prog.Stmt{prog.ExprStmt{X: prog.Builtin{Name: "throw", Args: []prog.Expr{prog.StrLit{V: "to-handler"}}}}}}
 			cur = []prog.Stmt{prog.ExprStmt{X: prog.Try{Body: tb, Name: e, Handler: blk}}, tagKeep(out)}
-		case "call":
+		case "call", "call-long":
 			name := fmt.Sprintf("fn%d", k)
-			f := &prog.Func{Name: name, Ret: prog.Null, Body: &prog.Block{Stmts: append([]prog.Stmt{prog.Let{Name: "keep", V: prog.IntLit{V: int64(100 + k)}}}, body...)}}
+			if w == "call-long" {
+				name += strings.Repeat("_leaves_its_caller", 1+(k-1)%3)
+			}
+			params, args := b.iterParams()
+			f := &prog.Func{Name: name, Ret: prog.Null, Params: params, Body: &prog.Block{Stmts: append([]prog.Stmt{prog.Let{Name: "keep", V: prog.IntLit{V: int64(100 + k)}}}, body...)}}
 			if fnRet[i] {
 				f.Ret = prog.Int
 				f.Body.Tail = prog.IntLit{V: 55}
-				cur = []prog.Stmt{prog.Let{Name: fmt.Sprintf("r%d", k), V: prog.Call{Fn: name, Ret: prog.Int}}, prog.ExprStmt{X: prog.Builtin{Name: "println", Args: []prog.Expr{prog.StrLit{V: out}, prog.Var{Name: fmt.Sprintf("r%d", k), Ty: prog.Int}, keepVar}}}}
+				cur = []prog.Stmt{prog.Let{Name: fmt.Sprintf("r%d", k), V: prog.Call{Fn: name, Args: args, Ret: prog.Int}}, prog.ExprStmt{X: prog.Builtin{Name: "println", Args: []prog.Expr{prog.StrLit{V: out}, prog.Var{Name: fmt.Sprintf("r%d", k), Ty: prog.Int}, keepVar}}}}
 			} else {
-				cur = []prog.Stmt{prog.ExprStmt{X: prog.Call{Fn: name, Ret: prog.Null}}, tagKeep(out)}
+				cur = []prog.Stmt{prog.ExprStmt{X: prog.Call{Fn: name, Args: args, Ret: prog.Null}}, tagKeep(out)}
 			}
 			b.fns = append(b.fns, f)
 		case "operand":
@@ -443,12 +622,24 @@ func Build(p Payload) *prog.Program {
 	}
 	main := &prog.Func{Name: "main", Ret: prog.Null, Body: &prog.Block{}}
 	// return-value at main level is illegal (main returns null): handled by the caller (skipped)
-	main.Body.Stmts = append(main.Body.Stmts, prog.Let{Name: "keep", V: prog.IntLit{V: 41}}, tagKeep("start"))
+	main.Body.Stmts = append(main.Body.Stmts, prog.Let{Name: "keep", V: prog.IntLit{V: 41}})
+	for _, v := range b.iter {
+		main.Body.Stmts = append(main.Body.Stmts, prog.Let{Name: v.Name, V: b.iterInit(v)})
+	}
+	main.Body.Stmts = append(main.Body.Stmts, tagKeep("start"))
 	main.Body.Stmts = append(main.Body.Stmts, cur...)
 	// scaffold after the construct: stale handlers, stale loop labels, corrupted locals, leftover stack
 	e2 := prog.Var{Name: "e2", Ty: prog.ObjOf(prog.Field{Name: "message", T: prog.Str})}
+	main.Body.Stmts = append(main.Body.Stmts, tagKeep("after"))
+	// every variable the construct iterated is iterated again, in full
+	for _, v := range b.iter {
+		n := prog.Var{Name: "n" + v.Name, Ty: prog.Int}
+		main.Body.Stmts = append(main.Body.Stmts,
+			prog.Let{Name: n.Name, V: prog.IntLit{V: 0}},
+			prog.For{Name: "x" + v.Name, Iter: v, Body: &prog.Block{Stmts: []prog.Stmt{prog.ExprStmt{X: prog.Assign{Op: "+=", Target: n, V: prog.IntLit{V: 1}}}}}},
+			say(prog.StrLit{V: "again-" + v.Name}, n, keepVar))
+	}
 	main.Body.Stmts = append(main.Body.Stmts,
-		tagKeep("after"),
 		prog.ExprStmt{X: prog.Try{
 			Body:    &prog.Block{Stmts: []prog.Stmt{b.tag("second-try"), prog.ExprStmt{X: prog.Builtin{Name: "throw", Args: []prog.Expr{prog.StrLit{V: "second"}}}}}},
 			Name:    "e2",
@@ -496,7 +687,7 @@ func admissible(stack []string, ex string) bool {
 	}
 	if ex == "return-value" {
 		// needs an enclosing function that can return a value: a call wrapper
-		return isIn(stack, "call")
+		return isIn(stack, "call") || isIn(stack, "call-long")
 	}
 	return true
 }
@@ -543,6 +734,18 @@ func (c11) Cases(tier string, seed uint64) []fw.Case {
 			}
 		}
 	})
+	// shadow family: the base wrappers at depth 1..2 once more, every block with its own keep.
+	n = 0
+	enumerateOver(wrappers, 2, func(stack []string) {
+		for _, ex := range exits {
+			if !admissible(stack, ex) {
+				continue
+			}
+			p := Payload{Stack: stack, Exit: ex, Shadow: true}
+			cases = append(cases, fw.MkCase(fmt.Sprintf("c11s-%d-%s-%s", n, strings.Join(stack, "."), ex), "nest", p, Tags(stack, ex)...))
+			n++
+		}
+	})
 	// ... deeper stacks as a sample selected by the seed (distinct, in drawing order).
 	d3, d4 := sampleSizes(tier)
 	rng := fw.NewRng(seed ^ 0xC11C11)
@@ -561,7 +764,13 @@ func (c11) Cases(tier string, seed uint64) []fw.Case {
 				continue
 			}
 			seen[key] = true
-			mk(stack, ex, "", guarded)
+			if (len(key)+got)%3 == 0 {
+				p := Payload{Stack: stack, Exit: ex, Guarded: guarded, Shadow: true}
+				cases = append(cases, fw.MkCase(fmt.Sprintf("c11x-%d-%s-%s-shadow", n, strings.Join(stack, "."), ex), "nest", p, Tags(stack, ex)...))
+				n++
+			} else {
+				mk(stack, ex, "", guarded)
+			}
 			got++
 		}
 	}
@@ -573,11 +782,15 @@ func (c11) Run(c fw.Case) fw.Result {
 	fw.Decode(c, &p)
 	pr := Build(p)
 	res := fw.Result{Verdict: fw.Held}
-	res.Cover = []string{"exit:" + p.Exit, "depth:" + fmt.Sprint(len(p.Stack))}
+	res.Cover = []string{"exit:" + p.Exit, "depth:" + fmt.Sprint(len(p.Stack)), "shadow:" + fmt.Sprint(p.Shadow)}
 	for _, w := range p.Stack {
 		res.Cover = append(res.Cover, "wrap:"+w)
 	}
-	why, sig, o := c01.RunVMAgainstModel(pr, nil)
+	twin := pr
+	if needsTwin(p) {
+		twin = BuildModel(p)
+	}
+	why, sig, o := runVMAgainstModel(pr, twin)
 	if o.Rejected != "" {
 		res.Verdict, res.Sig, res.Why = fw.Violated, "rejected", "the analyzer rejects a legal nesting: "+o.Rejected+"\n"+o.Src["main"]
 		return res
@@ -624,6 +837,48 @@ func (c11) Run(c fw.Case) fw.Result {
 	return res
 }
 
+// runVMAgainstModel is c01.RunVMAgainstModel with the reference evaluator running the twin of the
+// program (same judgement: trace, outcome, uncaught message, residue after normal completion).
+func runVMAgainstModel(pr, twin *prog.Program) (why, sig string, o c01.Obs) {
+	if twin == pr {
+		return c01.RunVMAgainstModel(pr, nil)
+	}
+	o.Src = pr.Source()
+	ao := drive.Analyze(o.Src, pr.Entry, true)
+	if ao.Errors > 0 {
+		o.Rejected = ao.ErrorSummary()
+		return "", "", o
+	}
+	o.Model = prog.Run(twin, nil, 0)
+	if o.Model.Discard {
+		return "", "", o
+	}
+	o.VM = drive.RunVM(ao.Modules, o.Src, pr.Entry, drive.VMOpts{})
+	o.TraceLines = strings.Count(o.Model.Effects, "\n")
+	got := o.VM.Log.Render()
+	if got != o.Model.Effects {
+		return fmt.Sprintf("effects differ:\n--- model\n%s\n--- vm\n%s", util.Clip(o.Model.Effects, 1500), util.Clip(got, 1500)), "effects", o
+	}
+	mo := o.Model
+	vo := o.VM.Outcome
+	switch {
+	case mo.Class == "ok" && vo.Class != "ok":
+		return fmt.Sprintf("model completes normally, VM ends with %s", vo), "outcome:ok-vs-" + vo.Class + "/" + vo.Kind, o
+	case mo.Class == "fatal" && (vo.Class != "fatal" || vo.Kind != mo.Kind):
+		return fmt.Sprintf("model ends with fatal/%s (%s), VM with %s", mo.Kind, mo.Message, vo), "outcome:" + mo.Kind + "-vs-" + vo.Class + "/" + vo.Kind, o
+	case mo.Class == "fatal" && mo.Kind == "UncaughtThrow" && vo.Message != mo.Message:
+		return fmt.Sprintf("uncaught throw message: model %q, VM %q", mo.Message, vo.Message), "outcome:throw-message", o
+	}
+	if vo.Class == "ok" {
+		for _, rs := range o.VM.Residues {
+			if rs.Stack != 0 || rs.CallStack != 0 || rs.MP != 0 || rs.Handlers != 0 {
+				return fmt.Sprintf("residue after normal completion: %+v", rs), "residue", o
+			}
+		}
+	}
+	return "", "", o
+}
+
 // firstDiff names the first trace line in which the engine departs from the model.
 func firstDiff(model, got, who string) string {
 	ml, gl := strings.Split(model, "\n"), strings.Split(got, "\n")
@@ -647,8 +902,16 @@ func (c11) OnCrash(c fw.Case, cr fw.Crash) fw.Result {
 	if cr.Kind == "watchdog" || cr.Kind == "killed" {
 		return fw.Result{Verdict: fw.Inconclusive, Why: cr.Kind + ": " + cr.Message}
 	}
+	expect := ""
+	if m := prog.Run(BuildModel(p), nil, 0); !m.Discard {
+		expect = fmt.Sprintf("exit %q at the bottom of the nesting %v: the run has to end as %s", p.Exit, p.Stack, m.Class)
+		if m.Class == "fatal" {
+			expect += fmt.Sprintf("/%s (%s), delivered to the host as the final interrupt", m.Kind, util.Clip(m.Message, 80))
+		}
+		expect += "; instead the "
+	}
 	return fw.Result{Verdict: fw.Violated, Nontrivial: true,
 		Sig:    fmt.Sprintf("vm:crash:%s:%s:%s", cr.Kind, util.NormPanic(cr.Message), cr.TopFrame),
-		Why:    fmt.Sprintf("worker died (%s: %s) at %s", cr.Kind, util.Clip(cr.Message, 300), cr.TopFrame),
+		Why:    fmt.Sprintf("%sworker died (%s: %s) at %s", expect, cr.Kind, util.Clip(cr.Message, 300), cr.TopFrame),
 		Detail: map[string]any{"source": Build(p).Source()["main"]}}
 }
